@@ -76,6 +76,9 @@ func NewEmptyRecord(len int) Record {
 }
 
 func (r Record) GroupLen() int {
+	if len(r) < 1 {
+		return 0
+	}
 	return len(r[0])
 }
 
